@@ -46,7 +46,7 @@ func ifaceMethodNames(i *types.Interface) []string {
 
 func checkC17(c *Ctx) {
 	p := c.P
-	checkReceiverDiscipline(c, "G4", func(n string) bool { return n == "manager" }, 20)
+	checkReceiverDiscipline(c, "G4", p.implementersIn("", "Manager"), 20)
 	checkManagerCallbackWiring(c, "F7")
 	mi := p.Iface("", "Manager")
 	ei := p.Iface("", "TableEngine")
